@@ -43,7 +43,7 @@ enum { /* record kinds */
 
 /* ---------------- schedule plan and fault plan ---------------- */
 #define TP_PLAN_MAX 64
-#define TP_FAULT_MAX 8
+#define TP_FAULT_MAX 24
 enum { /* interposed functions that can be made to fail */
 	F_QWRITE = 1,	/* write() on a message-queue pipe */
 	F_QREAD,	/* read() on a message-queue pipe */
@@ -121,7 +121,7 @@ typedef struct {
 typedef struct {
 	uint8_t nthreads;
 	uint8_t skip_first;
-	uint16_t detach_mask;		/* threads stopped (tp_thread_dettach) before the broadcasts */
+	uint16_t detach_mask;		/* threads never started (their pthread_create is made to fail) */
 	uint8_t nbcasts;
 	c10_bcast b[C10_MAX_BCASTS];
 	tp_plans plans;
